@@ -64,6 +64,25 @@ var c01CommentRE = regexp.MustCompile(`^\{\{/\*[^{}]*\*/\}\}$`)
 // involved and data inside what the engine takes for a comment is dropped) - thorough-tier case struct#253540
 var c01OddMarkupRE = regexp.MustCompile(`<\{\{|</\{\{|</[^A-Za-z]|</$|<![^-dD]|<!$|<!-[^-]|<!-$|<\?|<$|<[^A-Za-z/!?]|<!---?>|--!>`)
 
+// c01OddDecl: a markup declaration opener that is neither a comment opener nor a complete (case-insensitive) DOCTYPE
+// keyword - the engine turns it into text (it escapes the <), a tokenizer reads a bogus comment (thorough-tier case
+// struct#532075: the static template <!docty)
+func c01OddDecl(s string) bool {
+	for i := 0; i+1 < len(s); i++ {
+		if s[i] == '<' && s[i+1] == '!' {
+			rest := s[i+2:]
+			if strings.HasPrefix(rest, "--") {
+				continue
+			}
+			if len(rest) >= 7 && strings.EqualFold(rest[:7], "doctype") {
+				continue
+			}
+			return true
+		}
+	}
+	return false
+}
+
 func c01Author(text, name string) string {
 	if name != "" || !strings.Contains(text, "{{") {
 		if name != "" {
@@ -81,7 +100,7 @@ func c01Author(text, name string) string {
 		ok = false
 		return ""
 	})
-	if !ok || strings.Contains(out, "{{") || strings.Contains(out, "}}") || c01OddMarkupRE.MatchString(text) || c01OddMarkupRE.MatchString(out) {
+	if !ok || strings.Contains(out, "{{") || strings.Contains(out, "}}") || c01OddMarkupRE.MatchString(text) || c01OddMarkupRE.MatchString(out) || c01OddDecl(text) || c01OddDecl(out) {
 		return "-"
 	}
 	return hx(out)
